@@ -35,6 +35,12 @@ KINDS = {
     "keep-blank": ("@@\nvar x expression\n@@\n import _ \"{T}\"\n\n-legacy(x)\n+builtin(x)\n", ["context"]),
     "keep-dot": ("@@\nvar x expression\n@@\n import . \"{T}\"\n\n-legacy(x)\n+builtin(x)\n", ["context"]),
     "keep-blank-twice": ("@@\nvar x expression\n@@\n import _ \"{T}\"\n\n-legacy(x)\n+mid(x)\n\n@@\nvar x expression\n@@\n import _ \"{T}\"\n\n-mid(x)\n+builtin(x)\n", ["context"]),
+    # one side of the change is a single expression, the other a list of statements (the parser wraps the expression): the
+    # imports of BOTH sides count
+    "add-stmts-to-expr": ("@@\nvar x expression\n@@\n+import \"{N}\"\n\n-tmp := legacy(x)\n-use(tmp)\n+{n}.F(x)\n", []),
+    "delete-expr-to-stmts": ("@@\nvar x expression\n@@\n-import {TS}\n\n-{t}.F(x)\n+tmp := builtin(x)\n+use(tmp)\n", ["minus"]),
+    # the code a metavariable reproduces declares a variable of its own under the package's name: no reference to the package
+    "delete-captured-shadow": ("@@\nvar x expression\n@@\n-import {TS}\n\n-{t}.F(x)\n+trace(x)\n", ["minus"]),
     # two changes add the same import; only the later one applies to the file
     "add-after-unmatched-add": ("@@\nvar x expression\n@@\n+import \"{N}\"\n\n-neverThere(x)\n+{n}.G(x)\n\n@@\nvar x expression\n@@\n+import \"{N}\"\n\n-legacy(x)\n+{n}.F(x)\n", []),
     # an earlier change of the run reproduces code in which a parameter has the package's name (trace(url.Host) -> url.Host)
@@ -84,13 +90,23 @@ def gen(rng, k):
         imps.insert(rng.randint(0, len(imps)), (fform, tpath))
     rng.shuffle(imps)
     layout = rng.choice(["grouped", "grouped", "single", "blocks", "commented", "mixed"])
-    remaining = rng.random() < 0.5 and kind != "delete-after-reproduce"    # a use of the target the patch does not rewrite
+    remaining = rng.random() < 0.5 and kind not in ("delete-after-reproduce", "delete-captured-shadow")    # a use of the target the patch does not rewrite
     body = []
     if kind == "add-unfit-first":
         body = ["type first struct {\n\tlegacyName int\n}", "func a(p int) { _ = legacyName; use(legacyName + p) }"]
         if has_target:
             body.append("func keep() { %s.Other() }" % t)
         body_fixed = True
+    elif kind == "add-stmts-to-expr":
+        body.append("func a() {\n\ttmp := legacy(1)\n\tuse(tmp)\n}")
+        if has_target and fform not in ("_", "."):
+            body.append("func keep() { %s.Other() }" % t)
+    elif kind == "delete-expr-to-stmts":
+        body.append("func a() {\n\t%s.F(1)\n\tother()\n\t%s.F(q)\n}" % (t, t))
+        if remaining:
+            body.append("func keep() { %s.Other(1) }" % t)
+    elif kind == "delete-captured-shadow":
+        body.append("func a() {\n\t%s.F(func() string {\n\t\t%s := newLogger()\n\t\treturn %s.Name()\n\t}())\n}" % (t, t, t))
     elif kind == "introduce-then-partial":
         body.append("func a() { legacyA(1); legacyB(2); legacyA(3) }")
         remaining = True           # the references change 1 put in stay
@@ -175,7 +191,8 @@ def judge(c, o):
     mentioned = set()
     if c["roles"]:
         mentioned.add(c["target"][1])
-    if c["kind"] not in ("delete", "match-only", "metavar-unalias", "delete-two-names", "delete-after-reproduce", "keep-blank", "keep-dot", "keep-blank-twice"):
+    if c["kind"] not in ("delete", "match-only", "metavar-unalias", "delete-two-names", "delete-after-reproduce", "keep-blank", "keep-dot", "keep-blank-twice",
+                         "delete-expr-to-stmts", "delete-captured-shadow"):
         mentioned.add(c["new"][0])
     if c["kind"] in ("rename", "metavar-unalias"):
         mentioned.add(c["target"][1])
@@ -187,7 +204,7 @@ def judge(c, o):
         if p not in mentioned and I[(n, p)] == 0:
             bad.append(("import %s, which the patch does not mention, was added" % spec(n, p), None))
     # '+' imports
-    if c["kind"] in ("add", "add-unfit-first", "replace", "replace-all-selectors", "metavar-match-add", "add-after-unmatched-add", "introduce-then-partial"):
+    if c["kind"] in ("add", "add-stmts-to-expr", "add-unfit-first", "replace", "replace-all-selectors", "metavar-match-add", "add-after-unmatched-add", "introduce-then-partial"):
         if (None, c["new"][0]) not in O:
             bad.append(("the '+' import \"%s\" (unnamed) is missing from the output" % c["new"][0], None))
     if c["kind"] == "add-named" and ("nn", c["new"][0]) not in O:
@@ -209,6 +226,9 @@ def judge(c, o):
         name = fform or treal
         # selectors on a parameter of that name (func local(<name> *Endpoint)) do not refer to the package
         still = uses_name(re.sub(r"(?m)^func local\(.*$", "", out), name)
+        if c["kind"] == "delete-captured-shadow":
+            # the selectors that are left are on the variable the reproduced function literal declares
+            still = uses_name(re.sub(r"(?s)func\(\) string \{.*?\}\(\)", "", re.sub(r"(?m)^func local\(.*$", "", out)), name)
         taken = c["kind"] == "same-name-takeover" or (c["kind"] == "metavar-replace") or \
             (c["kind"] == "metavar-unalias" and (fform is None or name == tpath.rsplit("/", 1)[-1]))    # the '+' import takes the name over
         base_differs = fform is None and tpath.rsplit("/", 1)[-1] != treal
